@@ -64,7 +64,7 @@ func guestModule(min uint32, max *uint32) []byte {
 }
 
 // callerModule has a one-page memory of its own and forwards to the target's grow/size.
-func callerModule() []byte {
+func callerModule(ownPages uint32) []byte {
 	m := wb.New()
 	i32 := []wasm.ValueType{wb.I32}
 	g := m.ImportFunc("target", "grow", i32, i32)
@@ -72,7 +72,7 @@ func callerModule() []byte {
 	one := uint32(1)
 	three := uint32(3)
 	_ = one
-	m.Memory(1, &three, "mem")
+	m.Memory(ownPages, &three, "mem")
 	m.AddFunc(wb.Func{Params: i32, Results: i32, Body: wb.Cat(wb.LocalGet(0), wb.Call(g)), Export: "xgrow"})
 	m.AddFunc(wb.Func{Results: i32, Body: wb.Cat(wb.Call(sz)), Export: "xsize"})
 	m.AddFunc(wb.Func{Results: i32, Body: wb.Cat(wasm.OpcodeMemorySize, 0), Export: "ownsize"})
@@ -182,7 +182,11 @@ func replayOne(id int, b *behaviour) common.Result {
 				rt.Close(ctx)
 				continue
 			}
-			caller, err := rt.InstantiateWithConfig(ctx, callerModule(), wazero.NewModuleConfig().WithName("caller"))
+			own := uint32(1)
+			if limit == 0 { // under a limit of zero pages no memory may have a page: the caller's own memory is empty
+				own = 0
+			}
+			caller, err := rt.InstantiateWithConfig(ctx, callerModule(own), wazero.NewModuleConfig().WithName("caller"))
 			if err != nil {
 				common.Fatalf("caller module: %v", err)
 			}
@@ -364,6 +368,15 @@ func runHist(res *common.Result, b *behaviour, engine, alloc string, mod, caller
 					}
 				}
 			}
+			if s.Op.Op == "hedge" && s.Op.Len >= 1 { // the generic accessors with the same length
+				var bs []byte
+				bs, oks["Read"] = mem.Read(uint32(a), uint32(s.Op.Len))
+				if oks["Read"] {
+					oks["Write"] = mem.Write(uint32(a), append([]byte{}, bs...))
+				} else {
+					oks["Write"] = mem.Write(uint32(a), make([]byte, s.Op.Len))
+				}
+			}
 			for name, ok := range oks {
 				if name == "WriteString" {
 					continue
@@ -377,8 +390,12 @@ func runHist(res *common.Result, b *behaviour, engine, alloc string, mod, caller
 		// all views agree after every step
 		r, err := call("size")
 		hp, _ := mem.Grow(0)
-		if own, err := caller.ExportedFunction("ownsize").Call(ctx); err != nil || own[0] != 1 || caller.Memory().Size() != 65536 {
-			fail("other-memory", fmt.Sprintf("the calling instance's own memory changed: memory.size=%v (%v) host bytes=%d, expected 1 page", own, err, caller.Memory().Size()))
+		wantOwn := uint64(1)
+		if b.Cfg.Limit == 0 {
+			wantOwn = 0
+		}
+		if own, err := caller.ExportedFunction("ownsize").Call(ctx); err != nil || own[0] != wantOwn || uint64(caller.Memory().Size()) != wantOwn*65536 {
+			fail("other-memory", fmt.Sprintf("the calling instance's own memory changed: memory.size=%v (%v) host bytes=%d, expected %d page(s)", own, err, caller.Memory().Size(), wantOwn))
 			return
 		}
 		if err != nil || r[0] != uint64(pages)*scale || uint64(hp) != uint64(pages)*scale {
